@@ -42,6 +42,8 @@ def _hash_files(roots, skip_dirs=('target', '.git', '.cache', 'replays', 'eviden
             for d, dn, fn in os.walk(root):
                 dn[:] = sorted(x for x in dn if x not in skip_dirs and not x.startswith('target'))
                 for f in sorted(fn):
+                    if f == 'cases.rs' and d.endswith(os.path.join('gen', 'shapes', 'src')):
+                        continue   # generated at check time
                     files.append(os.path.join(d, f))
         for f in files:
             try:
@@ -208,6 +210,9 @@ def validate_file(path, workdir):
     return viols, int(m.group(2))
 
 
+_last_nontrivial = 0
+
+
 def split_runs(path, nshards, outdir, tag):
     """Splits an ndjson trace into shards at reset boundaries. Run ids are rewritten to be unique
     (position of the run in the file)."""
@@ -216,9 +221,16 @@ def split_runs(path, nshards, outdir, tag):
     cur = None
     run = -1
     nruns = 0
+    global _last_nontrivial
+    _last_nontrivial = 0
+    seen_cb = True
     with open(path) as fh:
         for line in fh:
+            if not seen_cb and '"e":"cb"' in line:
+                seen_cb = True
+                _last_nontrivial += 1
             if line.startswith('{"') and '"e":"reset"' in line:
+                seen_cb = False
                 run += 1
                 nruns += 1
                 cur = sizes.index(min(sizes))
@@ -248,6 +260,7 @@ def validate_trace(path, workdir, tag, nshards=None):
             events += n
     for f in files:
         os.unlink(f)
+    validate_trace.nontrivial = _last_nontrivial
     return viols, events, nruns
 
 
@@ -349,6 +362,7 @@ def conformance_stage(kind, variant, params):
             return res
         viols, events, nruns = validate_trace(trace, d, 'v')
         res['events'], res['runs'] = events, nruns
+        res['nontrivial'] = getattr(validate_trace, 'nontrivial', 0)
         for v in viols:
             beh = extract_run(trace, v['run'])
             v['behaviour'] = beh
@@ -400,6 +414,7 @@ def threads_stage(variant, tier):
                                       'behaviour': [], 'signature': 'teardown', 'variant': variant, 'source': 'threads'})
         viols, events, nruns = validate_trace(trace, d, 'v')
         res['events'], res['runs'] = events, nruns
+        res['nontrivial'] = getattr(validate_trace, 'nontrivial', 0)
         for v in viols:
             v['behaviour'] = extract_run(trace, v['run'])
             v['signature'] = history_signature(v['behaviour'])
@@ -410,6 +425,80 @@ def threads_stage(variant, tier):
         with open(sched) as fh:
             res['sample'] = [json.loads(l) for l in itertools.islice(fh, 3)]
         os.unlink(trace)
+        return res
+
+    return stage(key, run)
+
+
+def _cargo(cwd, args, timeout=1800):
+    env = dict(os.environ, CARGO_NET_OFFLINE='true')
+    return subprocess.run(['cargo'] + args, cwd=cwd, env=env, capture_output=True, text=True, timeout=timeout)
+
+
+def shapes_stage():
+    """C17 / C18: TLC enumerates container shapes and derive definitions with their expected visit vectors
+    (spec/Shapes.tla); a generator turns each row into a Rust type with probe leaves; the cases run against the
+    real Trace / Finalize impls and derive macros; compile probes check the Drop-conflict rule of derive(Trace)."""
+    key = ['shapes']
+
+    def run(d):
+        import gen_shapes
+        rc, out = tlc('Shapes.tla', 'Shapes.cfg', d, workers=1, heap='4g', timeout=600)
+        txt = open(out, errors='replace').read()
+        if 'No error has been found' not in txt:
+            raise ToolError('Shapes.tla failed:\n' + txt[-2000:])
+        rows = {}
+        for tag in ('SH', 'DF'):
+            m = re.search(r'<<"%s", "(.*)">>' % tag, txt)
+            if not m:
+                raise ToolError('Shapes.tla printed no %s rows' % tag)
+            rows[tag] = json.loads(m.group(1).encode('utf-8').decode('unicode_escape'))
+            with open(os.path.join(d, tag + '.json'), 'w') as fh:
+                json.dump(rows[tag], fh)
+        os.unlink(out)
+        crate = os.path.join(VERIF, 'gen', 'shapes')
+        gen_shapes.main(os.path.join(d, 'SH.json'), os.path.join(d, 'DF.json'), os.path.join(crate, 'src', 'cases.rs'))
+        res = {'kind': 'shapes', 'variant': 'default+weak+cleaners', 'params': {}, 'harness': {}, 'violations': [], 'events': 0, 'runs': 0,
+               'states': 2, 'transitions': 2, 'shape_rows': len(rows['SH']), 'def_rows': len(rows['DF'])}
+        b = _cargo(crate, ['build', '--offline', '--quiet'])
+        if b.returncode != 0:
+            # the generated cases only use the public API: not compiling is itself a finding about the impls / the derive
+            res['violations'].append({'run': 0, 'prop': 'C17', 'msg': 'generated container / derive cases do not compile: ' + b.stderr[-600:], 'n': 0, 'faulted': False, 'resur': False,
+                                      'behaviour': [], 'signature': 'shapes-build', 'variant': 'shapes', 'source': 'shapes'})
+            res['violations'].append(dict(res['violations'][0], prop='C18'))
+            return res
+        exe = os.path.join(crate, 'target', 'debug', 'ccshapes')
+        for mode, prop in (('shapes', 'C17'), ('derives', 'C18')):
+            r = subprocess.run([exe, mode], capture_output=True, text=True, timeout=600)
+            if r.returncode != 0:
+                res['violations'].append({'run': 0, 'prop': prop, 'msg': 'the %s cases crashed (rc %s): %s' % (mode, r.returncode, r.stderr[-300:]), 'n': 0, 'faulted': False, 'resur': False,
+                                          'behaviour': [], 'signature': mode + '-crash', 'variant': 'shapes', 'source': 'shapes'})
+                continue
+            rep = json.loads(r.stdout.strip().splitlines()[-1])
+            res['harness'][mode] = {'cases': rep['cases'], 'checks': rep['checks'], 'failures': len(rep['failures'])}
+            res['runs'] += rep['cases']
+            res['events'] += rep['checks']
+            for f in rep['failures'][:12]:
+                res['violations'].append({'run': 0, 'prop': prop, 'msg': f, 'n': 0, 'faulted': False, 'resur': False,
+                                          'behaviour': [f], 'signature': mode, 'variant': 'shapes', 'source': 'shapes'})
+        # compile probes (C18): a user Drop next to derive(Trace) must be rejected with E0119 unless unsafe_no_drop is given
+        probe = os.path.join(VERIF, 'gen', 'dropprobe')
+        expect = {'conflict_struct': False, 'conflict_tuple': False, 'conflict_unit': False, 'conflict_enum': False, 'conflict_generic': False,
+                  'nodrop_struct': True, 'nodrop_enum': True, 'plain_ok': True}
+        probes = {}
+        for name, should_compile in expect.items():
+            r = _cargo(probe, ['check', '--offline', '--quiet', '--bin', name, '--message-format', 'short'])
+            ok = r.returncode == 0
+            codes = sorted(set(re.findall(r'E0\d+', r.stderr)))
+            probes[name] = {'compiles': ok, 'codes': codes}
+            good = ok if should_compile else (not ok and codes == ['E0119'])
+            res['runs'] += 1
+            if not good:
+                res['violations'].append({'run': 0, 'prop': 'C18', 'msg': 'compile probe %s: compiles=%s errors=%s, expected %s' % (name, ok, codes, 'to compile' if should_compile else 'E0119'),
+                                          'n': 0, 'faulted': False, 'resur': False, 'behaviour': [name], 'signature': 'dropprobe', 'variant': 'shapes', 'source': 'shapes'})
+        res['harness']['probes'] = probes
+        res['sample'] = [rows['SH'][0], rows['DF'][0]]
+        res['nontrivial'] = sum(1 for r in rows['SH'] if r['visits']) + sum(1 for r in rows['DF'] if r['visits'])
         return res
 
     return stage(key, run)
@@ -439,6 +528,7 @@ def ptr_stage(variant):
         res['runs'] = r['rows']
         res['events'] = r['rows']
         res['sample'] = json.loads(table)[:3]
+        res['nontrivial'] = r['rows']
         for b in r['bad']:
             res['violations'].append({'run': 0, 'prop': 'C20', 'msg': 'Cc<T> does not behave like T: %s' % json.dumps(b), 'n': 0, 'faulted': False, 'resur': False,
                                       'behaviour': [b], 'signature': 'ptr-table', 'variant': variant, 'source': 'ptr'})
@@ -596,7 +686,7 @@ def run_check(pid, tier, seed):
     t0 = time.time()
     plan = P.plan(pid, tier, seed)
     known = load_known()
-    variants = sorted({s['variant'] for s in plan['conformance']})
+    variants = sorted({s['variant'] for s in plan['conformance'] if s['variant'] in BUILDS})
     build_all(variants)
     def _eng(name):
         log('engine', name)
@@ -631,6 +721,9 @@ def run_check(pid, tier, seed):
         if k == 'threads':
             log('conformance threads', v)
             return threads_stage(v, tier)
+        if k == 'shapes':
+            log('conformance shapes')
+            return shapes_stage()
         log('conformance', k, v, {x: y for x, y in p.items() if x != 'file'} if k != 'script' else p)
         return conformance_stage(k, v, p)
     with cf.ThreadPoolExecutor(max_workers=3) as ex:
